@@ -127,7 +127,8 @@ fn c17_pa_table_lookup() {
     pa_lookup_contract(&variant::STM32WL_HP_PA_TABLE);
 }
 
-// packet status: datasheet 13.5.3 RssiPkt = -raw/2 dBm, SnrPkt = raw(signed)/4 dB
+// packet status: datasheet 13.5.3 GetPacketStatus (0x14): RssiPkt = -raw0/2 dBm, SnrPkt = raw1 (two's complement)/4 dB.
+// The chip's answer is read back from the SPI contract-stub's read log: [status, raw0 (RssiPkt), raw1 (SnrPkt), raw2 (SignalRssiPkt)].
 // @verif props=C17,C18,C04 obligation=Sx126x::get_rx_packet_status.contract label=proved-complete tier=quick bound="all 2^32 status/raw byte combinations"
 #[kani::proof]
 #[kani::unwind(14)]
@@ -135,13 +136,151 @@ fn c17_sx126x_packet_status() {
     tape::init();
     let mut r = radio();
     let res = r.get_rx_packet_status();          // the chip answers with arbitrary bytes (MockSpi); must not panic
+    let g = unsafe { &*(&raw const SPI) };
+    assert!(g.n == 1 && g.w[0][0] == 0x14 && g.wl[0] == 1 && g.rdn == 4, "GetPacketStatus: opcode 0x14, status + 3 bytes read");
+    let (status, raw_rssi, raw_snr) = (g.rd[0], g.rd[1] as i32, g.rd[2] as i8 as i32);
+    let chip_error = matches!((status >> 1) & 7, 3 | 4 | 5);      // command timeout / processing error / execution failure
+    assert!(res.is_err() == chip_error, "a status byte reporting a command error is an error, anything else a result");
     if let Ok(st) = res {
-        // reconstruct what the chip said from the stub tape: [status, raw0, raw1, raw2]
         assert!(st.rssi <= 0 && st.rssi >= -128, "C17 RSSI = -raw/2 within rounding");
         assert!(st.snr >= -32 && st.snr <= 32, "C17 SNR = raw/4 within rounding");
+        let (rssi, snr) = (st.rssi as i32, st.snr as i32);
+        assert!(2 * rssi == -raw_rssi || 2 * rssi == -raw_rssi - 1 || 2 * rssi == -raw_rssi + 1, "C17 reported RSSI agrees with -RssiPkt/2 (the FIRST status byte) to within rounding");
+        assert!((4 * snr - raw_snr).abs() <= 4, "C17 reported SNR agrees with the signed SnrPkt/4 (the SECOND status byte) to within rounding (1 dB)");
     }
     kani::cover!(res.is_ok(), "verif-reached: status ok");
     kani::cover!(res.is_err(), "verif-reached: status error");
+}
+// instantaneous RSSI: datasheet 13.5.4 GetRssiInst (0x15): RssiInst = -raw/2 dBm
+// @verif props=C17 obligation=Sx126x::get_rssi.contract label=proved-complete tier=quick bound="all 2^16 status/raw byte combinations"
+#[kani::proof]
+#[kani::unwind(14)]
+fn c17_sx126x_get_rssi() {
+    tape::init();
+    let mut r = radio();
+    let res = r.get_rssi();
+    let g = unsafe { &*(&raw const SPI) };
+    assert!(g.n == 1 && g.w[0][0] == 0x15 && g.wl[0] == 1 && g.rdn == 2, "GetRssiInst: opcode 0x15, status + 1 byte read");
+    let (status, raw) = (g.rd[0], g.rd[1] as i32);
+    assert!(res.is_err() == matches!((status >> 1) & 7, 3 | 4 | 5), "a status byte reporting a command error is an error, anything else a result");
+    if let Ok(v) = res { let v = v as i32; assert!(2 * v == -raw || 2 * v == -raw - 1 || 2 * v == -raw + 1, "C17 instantaneous RSSI agrees with -RssiInst/2 to within rounding"); }
+    kani::cover!(res.is_ok(), "verif-reached: rssi ok");
+}
+
+// frequency: datasheet 13.4.1 SetRfFrequency (0x86) carries the 32-bit synthesiser word MSB first.  The word itself is
+// convert_freq_in_hz_to_pll_step(f), whose contract (nearest step, |word * 15625 - f * 2^14| <= 2^13) is the Verus unit
+// `Sx126x::convert_freq_in_hz_to_pll_step` (group phyarith, unbounded).  Here the conversion is replaced by its contract-stub
+// (CBMC does not finish on the 32-bit division, 561 s measured): it must be called exactly once, with the requested frequency,
+// and the word it returns -- any word -- must be what goes on the wire.
+pub(crate) static mut CONV_CALLS: u32 = 0;
+pub(crate) static mut CONV_ARG: u32 = 0;
+pub(crate) static mut CONV_RET: u32 = 0;
+fn stub_convert_freq<SPI, IV, C>(freq_in_hz: u32) -> u32 { unsafe { CONV_CALLS += 1; CONV_ARG = freq_in_hz; CONV_RET = u32::from_le_bytes(tape::stub_arr::<4>()); CONV_RET } }
+// @verif props=C17 obligation=Sx126x::set_channel.wire label=proved-complete tier=quick bound="every u32 frequency; the PLL-step conversion is contract-stubbed (its contract: Verus unit Sx126x::convert_freq_in_hz_to_pll_step)"
+#[kani::proof]
+#[kani::unwind(14)]
+#[kani::stub(Sx126x::convert_freq_in_hz_to_pll_step, stub_convert_freq)]
+fn c17_sx126x_set_channel_wire() {
+    tape::init();
+    let mut r = radio();
+    let f = tape::u32();
+    let res = r.set_channel(f);
+    let g = unsafe { &*(&raw const SPI) };
+    assert!(unsafe { CONV_CALLS == 1 && CONV_ARG == f }, "C17 the synthesiser word is computed from the requested frequency");
+    if res.is_ok() {
+        assert!(g.n == 1 && g.wl[0] == 5 && g.w[0][0] == 0x86, "set_channel issues exactly one SetRfFrequency");
+        assert!(u32::from_be_bytes([g.w[0][1], g.w[0][2], g.w[0][3], g.w[0][4]]) == unsafe { CONV_RET }, "C17 the synthesiser word on the wire (MSB first) is the PLL-step conversion of the requested frequency");
+    }
+    kani::cover!(res.is_ok() && f > 868_000_000, "verif-reached: programmed");
+}
+
+// TX power: datasheet 13.1.14 SetPaConfig (0x95: paDutyCycle, hpMax, deviceSel, paLut = 1) and 13.4.4 SetTxParams (0x8E: power, ramp).
+// DECODE, written from the datasheet's Table 13-21 (optimal settings) and its rule that powers between the optimal points are
+// reached by lowering SetTxParams one for one; STM32WL: ST's table (STM32CubeWL radio_driver.c) anchors the lowest HP row at 14/14.
+//   SX1261 (deviceSel 1):  (duty 6, hpMax 0) anchor +15 dBm @ 14;  (4, 0) +14 @ 14;  (1, 0) +10 @ 13;   SetTxParams range -17..=14
+//   SX1262 (deviceSel 0):  (4, 7) +22 @ 22;  (3, 5) +20 @ 22;  (2, 3) +17 @ 22;  (2, 2) +14 @ 22 (STM32WL HP: +14 @ 14);  range -9..=22
+fn decode_pa(lp: bool, stm_hp: bool, duty: u8, hp_max: u8, txp: i32) -> Option<i32> {
+    let anchor = if lp { match (duty, hp_max) { (6, 0) => (15, 14), (4, 0) => (14, 14), (1, 0) => (10, 13), _ => return None } }
+                 else { match (duty, hp_max) { (4, 7) => (22, 22), (3, 5) => (20, 22), (2, 3) => (17, 22), (2, 2) => if stm_hp { (14, 14) } else { (14, 22) }, _ => return None } };
+    Some(anchor.0 - (anchor.1 - txp))
+}
+fn tx_power_wire_contract<C: Sx126xVariant>(chip: C, lp: bool, stm_hp: bool) {
+    let mut r = Sx126x::new(MockSpi, MockIv, Config { chip, tcxo_ctrl: None, use_dcdc: true, rx_boost: false });
+    let req = tape::i32();
+    let with_params = tape::boolean();
+    let m = ModulationParams { spreading_factor: SpreadingFactor::_7, bandwidth: Bandwidth::_125KHz, coding_rate: CodingRate::_4_5, low_data_rate_optimize: 0, frequency_in_hz: tape::u32() };
+    let is_tx_prep = tape::boolean();
+    let res = r.set_tx_power_and_ramp_time(req, if with_params { Some(&m) } else { None }, is_tx_prep);
+    let g = unsafe { &*(&raw const SPI) };
+    // locate the two PA commands in the log
+    let (mut pa, mut txp, mut clamp_w): (Option<usize>, Option<usize>, Option<usize>) = (None, None, None);
+    let mut k = 0;
+    while k < LOG_LEN { if k < g.n { if g.w[k][0] == 0x95 { pa = Some(k); } if g.w[k][0] == 0x8E { txp = Some(k); } if g.w[k][0] == 0x0D { clamp_w = Some(k); } } k += 1; }
+    let (min, max) = if lp { (-17, 15) } else { (-9, 22) };
+    if lp && req >= 15 && with_params && m.frequency_in_hz < 400_000_000 {
+        assert!(res.is_err() && pa.is_none() && txp.is_none(), "C17 SX1261: +15 dBm is not available below 400 MHz (paDutyCycle limit): refused, nothing programmed");
+    } else if res.is_ok() {
+        assert!(pa.is_some() && txp.is_some() && pa.unwrap() < txp.unwrap(), "SetPaConfig then SetTxParams");
+        let (a, t) = (g.w[pa.unwrap()], g.w[txp.unwrap()]);
+        assert!(g.wl[pa.unwrap()] == 5 && a[3] == lp as u8 && a[4] == 0x01, "SetPaConfig: deviceSel selects the PA the variant has, paLut = 1");
+        assert!(g.wl[txp.unwrap()] == 3 && t[2] == if is_tx_prep { 0x02 } else { 0x04 }, "SetTxParams: ramp 40 us before TX, 200 us at initialisation");
+        let p = t[1] as i8 as i32;
+        assert!(if lp { p >= -17 && p <= 14 } else { p >= -9 && p <= 22 }, "C17 SetTxParams power inside the PA's legal range");
+        let dec = decode_pa(lp, stm_hp, a[1], a[2], p);
+        assert!(dec.is_some(), "C17 SetPaConfig is one of the datasheet's optimal settings for this PA");
+        let target = req.clamp(min, max);
+        assert!(dec.unwrap() == target, "C17 PA configuration + SetTxParams decode (datasheet Table 13-21) to the requested power clamped into the chip's range");
+        assert!(dec.unwrap() <= req || req < min, "C17 never above the request inside the range");
+        if !lp {
+            // SX1262 15.2: better resistance to antenna mismatch -- TxClampCfg (0x08D8) bits 4..1 set, other bits kept
+            assert!(clamp_w.is_some() && g.rdn >= 1, "TxClampCfg read-modify-write");
+            let w = g.w[clamp_w.unwrap()];
+            assert!(g.wl[clamp_w.unwrap()] == 4 && w[1] == 0x08 && w[2] == 0xD8 && w[3] == (g.rd[0] | 0x1E), "TxClampCfg: bits 4..1 set, every other bit as read from the chip");
+        }
+    }
+    kani::cover!(res.is_ok() && req > max, "verif-reached: clamped high");
+    kani::cover!(res.is_ok() && req < min, "verif-reached: clamped low");
+    kani::cover!(res.is_ok() && req == 10, "verif-reached: inside the range");
+}
+// @verif props=C17 obligation=Sx126x<Sx1261>::set_tx_power_and_ramp_time.wire_decode label=proved-complete tier=quick bound="every i32 request, every frequency, with/without modulation parameters, both ramp uses"
+#[kani::proof]
+#[kani::unwind(26)]
+fn c17_sx1261_tx_power_wire() { tape::init(); tx_power_wire_contract(Sx1261, true, false) }
+// @verif props=C17 obligation=Sx126x<Sx1262>::set_tx_power_and_ramp_time.wire_decode label=proved-complete tier=quick bound="every i32 request, every frequency, with/without modulation parameters, both ramp uses"
+#[kani::proof]
+#[kani::unwind(26)]
+fn c17_sx1262_tx_power_wire() { tape::init(); tx_power_wire_contract(Sx1262, false, false) }
+// @verif props=C17 obligation=Sx126x<Stm32wl-HP>::set_tx_power_and_ramp_time.wire_decode label=proved-complete tier=quick bound="every i32 request, every frequency, with/without modulation parameters, both ramp uses"
+#[kani::proof]
+#[kani::unwind(26)]
+fn c17_stm32wl_hp_tx_power_wire() { tape::init(); tx_power_wire_contract(Stm32wl { use_high_power_pa: true }, false, true) }
+// @verif props=C17 obligation=Sx126x<Stm32wl-LP>::set_tx_power_and_ramp_time.wire_decode label=proved-complete tier=quick bound="every i32 request, every frequency, with/without modulation parameters, both ramp uses"
+#[kani::proof]
+#[kani::unwind(26)]
+fn c17_stm32wl_lp_tx_power_wire() { tape::init(); tx_power_wire_contract(Stm32wl { use_high_power_pa: false }, true, false) }
+
+// single reception: the symbol-count timeout programmed by do_rx is the one asked for (C17 "never shorter than requested"
+// then follows from Sx126x::set_lora_symbol_num_timeout.contract); continuous / duty-cycle: no symbol timeout
+// @verif props=C17,C10 obligation=Sx126x::do_rx.symbol_timeout_passed label=proved-complete tier=quick bound="single (any symbol count), continuous, duty cycle"
+#[kani::proof]
+#[kani::unwind(26)]
+fn c17_sx126x_do_rx_symbol_timeout() {
+    tape::init();
+    let mut r = radio();
+    let k = tape::below(3);
+    let n = tape::u16();
+    let mode = match k { 0 => RxMode::Single(n), 1 => RxMode::Continuous, _ => RxMode::DutyCycle(DutyCycleParams { rx_time: tape::u32(), sleep_time: tape::u32() }) };
+    let res = r.do_rx(mode);
+    let g = unsafe { &*(&raw const SPI) };
+    if res.is_ok() {
+        let mut val: Option<u8> = None; let mut i = 0;
+        while i < LOG_LEN { if i < g.n && g.w[i][0] == 0xA0 { val = Some(g.w[i][1]); } i += 1; }
+        assert!(val.is_some(), "SetLoRaSymbNumTimeout issued before the reception starts");
+        let v = val.unwrap() as u32;
+        if k == 0 { assert!(v >= core::cmp::min(n as u32, 248), "C17 the symbol timeout in force for a single reception covers the requested count (up to the chip maximum)"); assert!(n != 0 || v == 0, "0 = no symbol timeout"); }
+        else { assert!(v == 0, "continuous / duty-cycle reception: symbol timeout disabled"); }
+    }
+    kani::cover!(res.is_ok() && k == 0 && n > 5, "verif-reached: single");
 }
 
 // ------------------------------------------------------------------------------------------------ C18
